@@ -19,6 +19,12 @@ Model of data-type printing and parsing (property C18).
   the recursion guard (`depth`), the `MatchedTrailingBracket` bookkeeping (`Bool` component) and
   the `dialect_of!` tests (`Cfg`, built from the dialect's name); `parseDataType` is
   `Parser::parse_data_type`.
+* the lists inside a type: the field lists of `UNION(..)` / `Nested(..)` / DuckDB `STRUCT(..)`
+  (`namedLoop`, `nestedLoop`, end test `commaEnd`) and the label list of `ENUM(..)` / `SET(..)`
+  (`parse_string_values` = `stringValues` / `strVals`, end test `afterCommaEnds`) are
+  `parse_comma_separated` lists and follow `ParserOptions::trailing_commas` (`Cfg.trailingCommas`);
+  `Props/C13Types.lean` proves `strVals` equal to `Lists.commaSep` of `Model/Lists.lean`.  The field
+  loops of `STRUCT<..>` and `Tuple(..)` are ad-hoc loops of the parser (`structLoop`, `tupleLoop`).
 -/
 set_option linter.constructorNameAsVariable false
 namespace SqlVerif.DTy
@@ -544,19 +550,33 @@ def literalString (c : Cfg) (ts : List Tok) : Except Err (W × List Tok) :=
   | .unis s :: r => pure (s, r)
   | _ => expectedAt "literal string" ts
 
-/-- the loop of `parse_string_values` after the `(` -/
-def strVals : List Tok → Except Err (List W × List Tok)
-  | .sqs v :: .sym .Comma :: r => do
-    let (vs, r') ← strVals r
-    pure (v :: vs, r')
-  | .sqs v :: .sym .RParen :: r => pure ([v], r)
-  | .sqs _ :: r => expectedAt ", or }" r
+/-- the peeked token after a consumed comma ends a `parse_comma_separated` list: the option is on and
+the token is a closer, `;`, EOF or a word of `RESERVED_FOR_COLUMN_ALIAS` (`is_parse_comma_separated_end`) -/
+def afterCommaEnds (tc : Bool) : List Tok → Bool
+  | [] => tc
+  | .word _ _ kw :: _ => tc && kw.rca
+  | .sym .RParen :: _ | .sym .SemiColon :: _ | .sym .RBracket :: _ | .sym .RBrace :: _ => tc
+  | _ => false
+
+/-- `parse_comma_separated(|p| match p.next_token() { SingleQuotedString(v) => Ok(v), _ => expected("a string") })`:
+the label list of `parse_string_values` between the parentheses.  After a label,
+`is_parse_comma_separated_end`: no comma = the list ends; a comma is consumed, and the list ends
+behind it when `afterCommaEnds` -/
+def strVals (c : Cfg) : List Tok → Except Err (List W × List Tok)
+  | .sqs v :: .sym .Comma :: r =>
+    if afterCommaEnds c.trailingCommas r then pure ([v], r)
+    else do
+      let (vs, r') ← strVals c r
+      pure (v :: vs, r')
+  | .sqs v :: r => pure ([v], r)
   | ts => expectedAt "a string" ts
 
-/-- `parse_string_values` -/
-def stringValues (ts : List Tok) : Except Err (List W × List Tok) := do
+/-- `parse_string_values`: `(`, the `parse_comma_separated` label list, `)` -/
+def stringValues (c : Cfg) (ts : List Tok) : Except Err (List W × List Tok) := do
   let r ← expectSym .LParen ts
-  strVals r
+  let (vs, r1) ← strVals c r
+  let r2 ← expectSym .RParen r1
+  pure (vs, r2)
 
 /-- `parse_identifier(false)` -/
 def parseIdent (ts : List Tok) : Except Err (Ident × List Tok) :=
@@ -696,8 +716,8 @@ def parseLeaf (c : Cfg) (kw : DKw) (ts : List Tok) : Option (Except Err (DT × L
     let (n, r1) ← literalUint r
     let r2 ← expectSym .RParen r1
     pure (.fixedString n, r2)
-  | .ENUM => some do let (vs, r) ← stringValues ts; pure (.enum vs, r)
-  | .SET => some do let (vs, r) ← stringValues ts; pure (.set vs, r)
+  | .ENUM => some do let (vs, r) ← stringValues c ts; pure (.enum vs, r)
+  | .SET => some do let (vs, r) ← stringValues c ts; pure (.set vs, r)
   | _ =>
     match simpleOfKw kw with
     | some k => some (pure (.simple k, ts))
